@@ -17,8 +17,18 @@ SALT = 10
 
 CORE_CLASSES = ['SO2', 'SE2', 'SO3', 'SE3', 'Quaternion', 'UnitQuaternion',
                 'Twist2', 'Twist3']
+# the other list-capable classes (quantifier: 'in every list-capable class'; anchored overrides in
+# geom3d.py and spatialvector.py).  SpatialInertia is left out: it cannot be constructed from a
+# list at all, so the alphabet does not apply to it.
+EXT_CLASSES = ['Plucker', 'SpatialVelocity', 'SpatialAcceleration', 'SpatialForce',
+               'SpatialMomentum']
+ALL_CLASSES = CORE_CLASSES + EXT_CLASSES
+# X(x) is documented as 'a copy' for poses, quaternions, twists and Plucker; the spatial-vector
+# constructor documents no such form, so the copy step is not issued for those classes
+NO_COPY = {'SpatialVelocity', 'SpatialAcceleration', 'SpatialForce', 'SpatialMomentum'}
 PAIRS = [('SO3', 'SE3'), ('SO2', 'SE2'), ('Quaternion', 'UnitQuaternion'),
-         ('Twist2', 'Twist3')]
+         ('Twist2', 'Twist3'), ('SpatialVelocity', 'SpatialAcceleration'),
+         ('SpatialForce', 'SpatialMomentum'), ('Plucker', 'Twist3')]
 MAX_LEN = 40            # operations that would make an object longer are skipped
 LITS = ['ndarray', 'list_of_ndarray', 'none', 'scalar', 'tuple', 'str', 'numlist']
 
@@ -31,7 +41,7 @@ _classes = {}
 def classes():
     if not _classes:
         import spatialmath as sm
-        for n in CORE_CLASSES:
+        for n in ALL_CLASSES:
             _classes[n] = getattr(sm, n)
     return _classes
 
@@ -79,7 +89,8 @@ def elem_value(cname, k):
         return q / math.sqrt(float(q @ q))
     if cname == 'Twist2':
         return np.array([k + 0.5, -2.0 * k - 1.0, 0.01 * k + 0.1])
-    if cname == 'Twist3':
+    if cname in ('Twist3', 'Plucker', 'SpatialVelocity', 'SpatialAcceleration', 'SpatialForce',
+                 'SpatialMomentum'):
         return np.array([k + 0.5, -2.0 * k - 1.0, 3.0 * k + 0.25,
                          0.01 * k + 0.1, -0.02 * k - 0.2, 0.03 * k + 0.3])
     raise core.HarnessError('no element generator for ' + cname)
@@ -89,7 +100,9 @@ def identity_value(cname):
     return {
         'SO2': np.eye(2), 'SE2': np.eye(3), 'SO3': np.eye(3), 'SE3': np.eye(4),
         'Quaternion': np.zeros(4), 'UnitQuaternion': np.array([1.0, 0, 0, 0]),
-        'Twist2': np.zeros(3), 'Twist3': np.zeros(6),
+        'Twist2': np.zeros(3), 'Twist3': np.zeros(6), 'Plucker': np.zeros(6),
+        'SpatialVelocity': np.zeros(6), 'SpatialAcceleration': np.zeros(6),
+        'SpatialForce': np.zeros(6), 'SpatialMomentum': np.zeros(6),
     }[cname]
 
 
@@ -330,7 +343,7 @@ class World:
 
     def op_copy(self, rec):
         x = self.ref(rec['x'])
-        if x is None:
+        if x is None or x.cname in NO_COPY:
             return {'r': 'skip'}
         _, real = self.run_call(lambda: self.K[x.cname](x.real), 'ok', 'copy constructor')
         if real is x.real:
@@ -588,7 +601,8 @@ def summarise(js, raw):
         'abstract_transitions': js.get('abstract_transitions', 0),
         'slice_shapes_exercised': js.get('slice_shapes', 0),
         'slice_shapes_in_domain': 8 * 16 * 16 * 7,
-        'classes': CORE_CLASSES,
+        'classes': ALL_CLASSES,
+        'classes_not_judged': ['SpatialInertia (cannot be constructed from a list)'],
     }
 
 
@@ -622,7 +636,7 @@ STEP_CHOICES = [1, 2, 3, 3, 4, 4, 5, 6, 8, 8, 12, 16, 24, 40, 60]
 
 
 def gen_config(rng, classes_pool=None):
-    pool = classes_pool or CORE_CLASSES
+    pool = classes_pool or ALL_CLASSES
     pairs = [p for p in PAIRS if p[0] in pool and p[1] in pool]
     if pairs and rng.random() < 0.5:
         cl = list(rng.choice(pairs))
@@ -631,7 +645,7 @@ def gen_config(rng, classes_pool=None):
             if extra not in cl:
                 cl.append(extra)
     else:
-        cl = rng.sample(pool, rng.choice([1, 1, 2, 3]))
+        cl = rng.sample(pool, min(len(pool), rng.choice([1, 1, 2, 3])))
     kinds = [k for k in FAULT_KINDS if rng.random() < 0.6]
     rate = rng.choice([0.0, 0.0, 0.1, 0.25, 0.5])
     if not kinds:
@@ -887,8 +901,8 @@ def simplify(rec):
             r = dict(rec)
             r['items'] = [0] * len(rec['items'])
             out.append(r)
-    if 'cls' in rec and rec['cls'] != CORE_CLASSES[0]:
-        for c in CORE_CLASSES:
+    if 'cls' in rec and rec['cls'] != ALL_CLASSES[0]:
+        for c in ALL_CLASSES:
             if c == rec['cls']:
                 break
             r = dict(rec)
